@@ -20,7 +20,7 @@ EXPLANATION = (
     "functions only when threads ≠ 1, and the walker is sorted only for ascending path order; (FILES) in files_parallel "
     "paths are written only by the printer thread, the walker closure only sends, and the sender is dropped before the "
     "join; (STATUS) the parallel results derive from the shared `matched` flag. Byte identity of blocks and behaviour "
-    "under timing perturbation are not decided.")
+    "under timing perturbation are not decided. (PERFILE) per-file searcher state (binary detection mode) is chosen and installed for every haystack, so nothing leaks between files of one worker.")
 NOT_DECIDED = ["byte identity of per-file blocks", "behaviour under timing perturbation (schedules are not explored)"]
 
 HI = "rg::flags::hiargs::HiArgs"
